@@ -122,6 +122,16 @@ theorem alloc_le_size_or_same {m : PMap w V} (h : m.Inv) (op : Op w V) :
     have := alloc_eq (collect_inv xs)
     simp only [Op.apply]
     rw [collect_free_nil xs] at this; simp only [List.length_nil, Nat.add_zero] at this; omega
+  | viewSet q cs x =>
+    simp only [Op.apply, PMap.viewSetAt]
+    split
+    · next v _ => unfold PMap.viewSet; cases v.virt <;> exact Nat.le_max_left _ _
+    · exact Nat.le_max_left _ _
+  | viewRemove q cs =>
+    simp only [Op.apply, PMap.viewRemoveAt]
+    split
+    · next v _ => unfold PMap.viewRemove; cases v.virt <;> exact Nat.le_max_left _ _
+    · exact Nat.le_max_left _ _
 
 theorem alloc_le_peak {m : PMap w V} (h : m.Inv) (ops : List (Op w V)) :
     (run ops m).alloc ≤ max m.alloc (peak m ops) := by
